@@ -35,6 +35,12 @@
 //   (exactly what user code writes) and stichwort's public Parameter::create(name, value) otherwise.
 //   The set is built with the comma operators, left to right.
 //
+// A sequence of requests in ONE process (wave 4: state that survives a call), one per line:
+//   S <R line> / <R line> / ... / <R line>
+//     the requests are made one after the other in the same child; the earlier ones run to their end (an exception or
+//     the embedding; no callback ends the child, no parallel-region mode), only the LAST one is observed and reported,
+//     with counters and echo reset before it: it must come out as it does in a fresh process.
+//
 // Structural probe of the container (wave 2), one per line:
 //   P <na> { <kwid> <T> <value> }*na <nd> { <kwid> <T> <value> }*nd
 //     drives stichwort::ParametersSet DIRECTLY (no tapkee::embed): A = the comma expression of the first
@@ -89,6 +95,7 @@ static long n_kernel = 0, n_distance = 0, n_fvec = 0, n_fdim = 0, n_cancel = 0, 
 static std::string g_echo;
 static int g_omp_mode = 0;
 static int g_route = 0;
+static bool g_final = true;     // false while an EARLIER request of a sequence runs (S lines): nothing ends the child
 // in the parallel-region mode only the calls made by thread 0 of the application's region are counted / echoed
 static inline bool observed_thread() { return !g_omp_mode || omp_get_ancestor_thread_num(1) == 0; }
 
@@ -121,7 +128,7 @@ struct counting_kernel
 #pragma omp critical(c14_obs)
         {
             n_kernel++;
-            emit_and_exit("stop:kernel");
+            if (g_final) emit_and_exit("stop:kernel");
         }
         return a == b ? 1.0 : 0.0;
     }
@@ -133,7 +140,7 @@ struct counting_distance
 #pragma omp critical(c14_obs)
         {
             n_distance++;
-            emit_and_exit("stop:distance");
+            if (g_final) emit_and_exit("stop:distance");
         }
         return a == b ? 0.0 : 1.0;
     }
@@ -150,7 +157,7 @@ struct counting_features
 #pragma omp critical(c14_obs)
         {
             n_fvec++;
-            if (g_stopf) emit_and_exit("stop:features");
+            if (g_stopf && g_final) emit_and_exit("stop:features");
         }
         // well separated, full-rank, dyadic data
         for (int j = 0; j < FEATURE_DIM; j++)
@@ -615,6 +622,11 @@ template <class K, class D, class F> static std::string embed_outcome(const std:
 
 template <class K, class D, class F> static void run_embed(const std::vector<int>& idx, const ParametersSet& ps)
 {
+    if (!g_final)
+    {
+        (void)embed_outcome<K, D, F>(idx, ps);      // an earlier request of a sequence: its outcome is not reported
+        return;
+    }
     if (!g_omp_mode) emit_and_exit(embed_outcome<K, D, F>(idx, ps));
     // the application's own parallel region: every thread calls tapkee::embed, exceptions stay inside their thread
     std::string res[3];
@@ -632,11 +644,37 @@ template <class K, class D, class F> static void run_embed(const std::vector<int
     emit_and_exit(outcome);
 }
 
+static void run_request(const std::string& line);
+
 static void child_main(const std::string& line)
 {
     std::istringstream in(line);
     std::string tag;
-    int N, mask, stopf, nkw;
+    if (!line.empty() && line[0] == 'S')
+    {
+        // S <R line> / <R line> / ... : the requests are made one after the other in THIS process; only the last one
+        // is reported (and must come out as it does in a fresh process)
+        std::vector<std::string> parts;
+        size_t at = 2;
+        while (at <= line.size())
+        {
+            size_t sep = line.find(" / ", at);
+            if (sep == std::string::npos) { parts.push_back(line.substr(at)); break; }
+            parts.push_back(line.substr(at, sep - at));
+            at = sep + 3;
+        }
+        if (parts.empty() || parts.size() > 8) emit_and_exit("other:bad-request-line");
+        alarm(8);
+        for (size_t i = 0; i + 1 < parts.size(); i++)
+        {
+            g_final = false;
+            run_request(parts[i]);
+        }
+        g_final = true;
+        n_kernel = n_distance = n_fvec = n_fdim = n_cancel = n_progress = 0;
+        g_echo.clear();
+        run_request(parts.back());
+    }
     if (!line.empty() && line[0] == 'P')
     {
         in >> tag;
@@ -647,10 +685,18 @@ static void child_main(const std::string& line)
         in >> tag;
         predicate_main(in);
     }
+    run_request(line);
+}
+
+static void run_request(const std::string& line)
+{
+    std::istringstream in(line);
+    std::string tag;
+    int N, mask, stopf, nkw;
     if (!(in >> tag >> N >> mask >> stopf >> nkw) || tag != "R" || N < 0 || N > 4096 || nkw < 0)
         emit_and_exit("other:bad-request-line");
     g_stopf = stopf & 1;
-    g_omp_mode = (stopf >> 1) & 3;
+    g_omp_mode = g_final ? (stopf >> 1) & 3 : 0;
     g_route = (stopf >> 3) & 15;
     std::vector<Parameter> ps_list;
     for (int i = 0; i < nkw; i++)
@@ -664,9 +710,14 @@ static void child_main(const std::string& line)
     std::vector<int> idx(N);
     for (int i = 0; i < N; i++) idx[i] = i;
 
-    Logging::instance().set_logger_impl(new capture_logger);
-    Logging::instance().enable_debug();
-    alarm(8);
+    static bool logger_set = false;
+    if (!logger_set)
+    {
+        Logging::instance().set_logger_impl(new capture_logger);
+        Logging::instance().enable_debug();
+        logger_set = true;
+    }
+    if (g_final) alarm(8);
     // C14_HALF = 0 / 1 compiles only the instantiations without / with a real features callback
     // (the check builds the two halves in parallel); unset: all eight
     bool known = false;
@@ -694,7 +745,7 @@ static void child_main(const std::string& line)
     catch (const std::exception& ex) { emit_and_exit(std::string("other:route-threw:") + typeid(ex).name()); }
     catch (...) { emit_and_exit("other:route-threw"); }
     if (!known) emit_and_exit("other:bad-request-line");
-    emit_and_exit("other:fell-through");
+    if (g_final) emit_and_exit("other:fell-through");
 }
 
 // ------------------------------------------------------------------ parent: fork per request
@@ -705,7 +756,7 @@ int main()
     signal(SIGPIPE, SIG_IGN);
     while (std::getline(std::cin, line))
     {
-        if (line.empty() || (line[0] != 'R' && line[0] != 'P' && line[0] != 'V')) continue;
+        if (line.empty() || (line[0] != 'R' && line[0] != 'P' && line[0] != 'V' && line[0] != 'S')) continue;
         int fds[2];
         if (pipe(fds) != 0) { perror("pipe"); return 2; }
         fflush(stdout);
